@@ -38,9 +38,25 @@ func init() {
 			if tier == "thorough" {
 				n = 200000
 			}
-			return append(c01Plan(tier).suites(), core.Suite{Name: "collide", N: n})
+			return append(c01Plan(tier).suites(), core.Suite{Name: "collide", N: n}, core.Suite{Name: "ops", N: 2 * n})
 		},
 		Run: func(c *core.Ctx) {
+			if c.Suite == "ops" {
+				// "every reachable history" also runs through the other state-changing entry points:
+				// undo, re-applied blocks, Verify(remember) of arbitrary live leaves, Ingest, Prune and
+				// refused calls between the blocks (added after seeded change C01g, which needs a leaf
+				// remembered while it is a lone root and deleted later without its proof being shown again)
+				prof := gen.Tiny
+				if c.Index%3 == 0 {
+					prof = gen.Small
+				}
+				prof.RememberMode = 1
+				tag := uint64(c.Seed)<<32 | uint64(c.Index) | 1<<51
+				cfgs := []InstCfg{{Kind: "pollard"}, {"mapfull", []uint8{0, 5, 63}[c.Index%3]}, {"mappartial", []uint8{63, 0, 5}[c.Index%3]}, {"mappartial", []uint8{0, 63, 2}[c.Index%3]}}
+				s := genForestScenario(c.Rng, tag, cfgs, fGenOpts{Profile: prof, Rounds: 1 + c.Rng.Intn(3), Undo: c.Index%2 == 0, PartialOps: true, ForceEmptyRootOverwrite: c.Index%4 == 0, Redo: c.Index%4 == 2})
+				c01Ops(c, s)
+				return
+			}
 			if c.Suite == "collide" {
 				// one added leaf is the hash of an internal node of the forest it is added to: still a
 				// distinct non-empty leaf, but every hash-keyed index of an implementation now sees the
@@ -67,6 +83,11 @@ func init() {
 			c01Check(c, histScenario{History: h, Cfgs: cfgs, LeafMode: mode})
 		},
 		Replay: func(c *core.Ctx, raw json.RawMessage) {
+			var fs fScenario
+			if json.Unmarshal(raw, &fs) == nil && len(fs.Ops) > 0 {
+				c01Ops(c, fs)
+				return
+			}
 			s, err := parseHistScenario(raw)
 			if err != nil {
 				c.Inconclusive("bad scenario: " + err.Error())
@@ -94,6 +115,31 @@ func checkRoots(c *core.Ctx, w *World, f *rm.Forest, when string, fail failFn) {
 			fail(in.Cfg.Kind+".Modify", "roots-differ-from-reference", "", fmt.Sprintf("%s: %s N=%d roots=%s; reference N=%d roots=%s",
 				when, in.Name, n, hashesStr(got), f.N, hashesStr(f.Roots)))
 		}
+	}
+}
+
+// c01Ops: roots and leaf count of every implementation after every operation of a forest
+// scenario (blocks, undo, re-applied blocks, remember / ingest / prune, refused calls).
+func c01Ops(c *core.Ctx, s fScenario) {
+	c.SetScenario(s)
+	sawDel := false
+	fail := func(site, clause, trigger, detail string) { c.Violate(site, clause, trigger, detail) }
+	runForest(c, s, func(site, clause, trigger, detail string) { c.Violate(site, "setup:"+clause, trigger, detail) }, func(st *fState) {
+		if c.CaseViolations() > 0 {
+			return
+		}
+		if st.Op.Kind == "block" && len(st.Op.Block.Dels) > 0 {
+			sawDel = true
+		}
+		trig := "after-" + st.Op.Kind
+		checkRoots(c, st.W, st.F, st.When, func(site, clause, _, detail string) { fail(site, clause, trig, detail) })
+		c.Count("states_after_"+st.Op.Kind, 1)
+	})
+	if sawDel {
+		c.Distinct(core.FP(opsShape(s), len(s.Cfgs)))
+	}
+	if c.WantSample(c.Suite) {
+		c.Sample(c.Suite, s)
 	}
 }
 
